@@ -69,12 +69,60 @@ TYPES = {
     "tree": ([2, 4, 6, 8], _tree_ok),
     "rv": ([0, 1, 2, 3, 4], lambda l: True),
     "ref": ([1], lambda l: True),
-    "sp": ([2], lambda l: l[1] <= 1),
+    "sp": ([2], lambda l: True),
     "recu": ([1], lambda l: True),
+    "vec1": ([1], lambda l: True),
+    "vec4": ([4], lambda l: True),
+    "dim3": ([3], lambda l: True),
+    "mat23": ([6], lambda l: True),
+    "box3": ([6], lambda l: True),
+    "sph3": ([4], lambda l: True),
+    "grid1": ([1, 2, 3], lambda l: len(l) - 1 == l[0]),
+    "grid3": ([3, 4, 5, 7], lambda l: len(l) - 3 == l[0] * l[1] * l[2]),
+    "unit": ([0], lambda l: True),
+    "itr": ([2], lambda l: l[0] <= l[1]),
 }
+# number of construction routes the harness offers per type (the model is a value model: routes do not matter)
+ROUTES = {"opt": 3, "eith": 3, "var": 3, "tup": 2, "arr": 2, "earr": 2, "rec": 2, "sti": 2, "recu": 5, "vec1": 3, "vec2": 3,
+          "vec3": 3, "vec4": 3, "dim2": 3, "dim3": 3, "mat22": 2, "mat23": 2, "box2": 3, "box3": 3, "sph2": 2, "sph3": 2,
+          "grid": 4, "grid1": 4, "grid3": 4, "tree": 3, "rv": 5, "ref": 3, "sp": 3, "itr": 2}
+# maxlen for the route-pair digests (quick, thorough) where the full domain would be too large
+MAXLEN_ROUTES = {"tree": (6, 8), "rv": (3, 3), "grid3": (5, 7)}
+# value positions for the boundary-value digests: type -> list of (base, [(pos, kind)]), kind 0 = 16-bit values, 1 = 32-bit
+BOUNDARY_POS = {
+    "opt": [([1], [(0, 1)])],
+    "eith": [([0, 1], [(1, 1)]), ([1, 1], [(1, 1)])],
+    "var": [([0, 1], [(1, 1)]), ([1, 1], [(1, 1)]), ([2, 1], [(1, 0)])],
+    "tup": [([1, 1, 1], [(0, 1), (1, 1), (2, 0)])],
+    "arr": [([1, 1, 1], [(0, 1), (1, 1), (2, 1)])],
+    "earr": [([1, 1, 1], [(0, 1), (1, 1), (2, 1)])],
+    "rec": [([1, 1], [(0, 1), (1, 1)])],
+    "sti": [([1], [(0, 1)])],
+    "recu": [([1], [(0, 1)])],
+    "vec1": [([1], [(0, 1)])],
+    "vec2": [([1, 1], [(0, 1), (1, 1)])],
+    "vec3": [([1, 1, 1], [(0, 1), (1, 1), (2, 1)])],
+    "vec4": [([1, 1, 1, 1], [(0, 1), (1, 1), (2, 1), (3, 1)])],
+    "dim2": [([1, 1], [(0, 1), (1, 1)])],
+    "dim3": [([1, 1, 1], [(0, 1), (1, 1), (2, 1)])],
+    "mat22": [([1, 1, 1, 1], [(0, 1), (1, 1), (2, 1), (3, 1)])],
+    "mat23": [([1, 1, 1, 1, 1, 1], [(k, 1) for k in range(6)])],
+    "box2": [([1, 1, 1, 1], [(k, 0) for k in range(4)])],
+    "box3": [([1, 1, 1, 1, 1, 1], [(k, 0) for k in range(6)])],
+    "sph2": [([1, 1, 1], [(0, 1), (1, 1), (2, 1)])],
+    "sph3": [([1, 1, 1, 1], [(k, 1) for k in range(4)])],
+    "grid": [([2, 2, 1, 1, 1, 1], [(k, 1) for k in range(2, 6)])],
+    "grid1": [([3, 1, 1, 1], [(1, 1), (2, 1), (3, 1)])],
+    "grid3": [([1, 2, 1, 1, 1], [(3, 1), (4, 1)])],
+    "tree": [([1, 2, 1, 0, 1, 1, 1, 0], [(0, 1), (2, 1), (4, 1), (6, 1)])],
+    "rv": [([1, 1, 1], [(0, 1), (1, 1), (2, 1)])],
+}
+B16 = [-32768, -32767, -257, -256, -129, -128, -1, 0, 1, 127, 128, 255, 256, 32766, 32767]
+B32 = [-2147483648, -2147483647, -16777217, -16777216, -65537, -65536, -32769, -32768, -1, 0, 1,
+       32767, 32768, 65535, 65536, 16777216, 16777217, 2147483646, 2147483647]
 # maxlen used for the pair digests and for the triple checks
 MAXLEN_PAIRS = {"tree": (8, 8), "rv": (3, 4)}     # (quick, thorough)
-MAXLEN_TRI = {"tree": (6, 6), "rv": (3, 4)}
+MAXLEN_TRI = {"tree": (6, 6), "rv": (3, 4), "mat23": (0, 0), "box3": (0, 0), "grid3": (5, 5)}   # 0: no triple batch (729^3)
 
 _dom_cache = {}
 
@@ -123,8 +171,10 @@ def weight(op):
         return int(t[4]) - int(t[3]) + 1
     if t[0] == "stselfs":
         return int(t[3]) - int(t[2]) + 1
-    if t[0] == "rels":
+    if t[0] in ("rels", "relsr", "selfs"):
         return len(domain(t[1], int(t[2])))
+    if t[0] == "relb":
+        return len(B16 if t[4] == "0" else B32) ** 2
     if t[0] == "tri":
         return len(domain(t[1], int(t[2]))) ** 2
     return 1
@@ -140,6 +190,19 @@ def refine(op):
         return [f"stself {t[1]} {a}" for a in range(int(t[2]), int(t[3]) + 1)]
     if t[0] == "rels":
         return [f"rel {t[1]} {t[3]} {enc(b)}" for b in domain(t[1], int(t[2]))]
+    if t[0] == "relsr":
+        return [f"relr {t[1]} {t[3]} {t[4]} {t[5]} {enc(b)}" for b in domain(t[1], int(t[2]))]
+    if t[0] == "selfs":
+        return [f"self {t[1]} {t[3]} {enc(a)}" for a in domain(t[1], int(t[2]))]
+    if t[0] == "relb":
+        base, pos, vals = dec(t[2]), int(t[3]), (B16 if t[4] == "0" else B32)
+        out = []
+        for u in vals:
+            for v in vals:
+                a, b = list(base), list(base)
+                a[pos], b[pos] = u, v
+                out.append(f"relr {t[1]} {u & 3} {v & 1} {enc(a)} {enc(b)}")
+        return out
     if t[0] == "tri":
         d = domain(t[1], int(t[2]))
         return [f"tri1 {t[1]} {t[3]} {enc(b)} {enc(c)}" for b in d for c in d]
@@ -185,6 +248,35 @@ def rand_tree(r, n, comp):
     return out
 
 
+def tree_shapes(n):
+    """all ordered trees with n nodes, as nested lists of children"""
+    if n == 1:
+        return [[]]
+    out = []
+    # forests with n-1 nodes
+    def forests(m):
+        if m == 0:
+            return [[]]
+        res = []
+        for k in range(1, m + 1):
+            for first in tree_shapes(k):
+                for rest in forests(m - k):
+                    res.append([first] + rest)
+        return res
+    return forests(n - 1)
+
+
+def tree_enc(shape, values):
+    """pre-order encoding value,number-of-children of a shape with the given pre-order values"""
+    it = iter(values)
+    def go(sh):
+        out = [next(it), len(sh)]
+        for c in sh:
+            out += go(c)
+        return out
+    return go(shape)
+
+
 def rand_value(r, ty, wide):
     comp = (lambda: r.range(-3, 3)) if wide else (lambda: r.below(3))
     if ty == "opt":
@@ -198,10 +290,21 @@ def rand_value(r, ty, wide):
     if ty == "ref":
         return [r.below(3)]
     if ty == "sp":
-        return [r.below(3), r.below(2)]
+        return [r.below(3), r.below(3)]
     if ty == "grid":
         w, h = r.below(4), r.below(4)
         return [w, h] + [comp() for _ in range(w * h)]
+    if ty == "grid1":
+        w = r.below(7)
+        return [w] + [comp() for _ in range(w)]
+    if ty == "grid3":
+        w, h, d = r.below(3), r.below(3), r.below(4)
+        return [w, h, d] + [comp() for _ in range(w * h * d)]
+    if ty == "unit":
+        return []
+    if ty == "itr":
+        i = r.below(3)
+        return [i, r.range(i, 2)]
     if ty == "tree":
         return rand_tree(r, r.range(1, 7), comp)
     if ty == "rv":
@@ -221,6 +324,20 @@ def near(r, ty, v):
             return [w[1], w[0]] + w[2:]      # transpose the extent, keep the content
         w[i] += r.choice([-1, 1])
         return w
+    if ty == "grid3":
+        if i < 3:
+            j = (i + 1) % 3
+            w[i], w[j] = w[j], w[i]          # exchange two extents, keep the content
+            return w
+        w[i] += r.choice([-1, 1])
+        return w
+    if ty == "grid1":
+        if i == 0:
+            return w
+        w[i] += r.choice([-1, 1])
+        return w
+    if ty == "itr":
+        return [w[0], w[0]] if i == 0 else [w[1], w[1]]
     if ty == "tree":
         w[i - i % 2] += r.choice([-1, 1])    # only values; the shape stays
         return w
@@ -233,7 +350,7 @@ def near(r, ty, v):
     if ty == "ref":
         return [(w[0] + 1) % 3]
     if ty == "sp":
-        w[i] = (w[i] + 1) % (3 if i == 0 else 2)
+        w[i] = (w[i] + 1) % 3
         return w
     if ty in ("eith", "var") and i == 0:
         w[0] = (w[0] + 1) % (2 if ty == "eith" else 3)
@@ -307,11 +424,73 @@ def batches(rng, tier):
         d = domain(ty, ml)
         yield Batch(f"pairs-{ty}", [f"rels {ty} {ml} {enc(a)}" for a in d], exhaustive=True,
                     note=f"all {len(d)}^2 ordered pairs of values with components in {{0,1,2}} (encodings up to length {ml})")
+    # ---- the same pairs with the two values reached along different construction routes (representation must not matter)
+    for ty, nr in ROUTES.items():
+        ml = MAXLEN_ROUTES[ty][1 if thorough else 0] if ty in MAXLEN_ROUTES else fixed_len(ty)
+        d = domain(ty, ml)
+        step = 1
+        if len(d) > 400 and not thorough:
+            step = 5            # 729-value domains: every 5th left operand, all right operands
+        ops = [f"relsr {ty} {ml} {ra} {rb} {enc(a)}" for ra in range(nr) for rb in range(nr) if (ra, rb) != (0, 0)
+               for a in d[(ra * nr + rb) % step::step]]
+        yield Batch(f"routes-{ty}", ops, exhaustive=(step == 1),
+                    note=f"all ordered pairs over {len(d)} values for every pair of the {nr} construction routes "
+                         "(constructor, assignment over another value, element-wise writes, insert + erase, reserve / resize …)")
+    # ---- the same object on both sides
+    ops = []
+    for ty in TYPES:
+        ml = pairs_maxlen(ty, thorough)
+        ops += [f"selfs {ty} {ml} {ra}" for ra in range(ROUTES.get(ty, 1))]
+    yield Batch("self", ops, exhaustive=True, note="x == x, x < x, … hash(x) with the same object on both sides, every value, every route")
+    # ---- boundary values in one component
+    ops = []
+    for ty, lst in BOUNDARY_POS.items():
+        for base, poss in lst:
+            ops += [f"relb {ty} {enc(base)} {pos} {kind}" for pos, kind in poss]
+    yield Batch("boundary-components", ops, exhaustive=True,
+                note="all pairs of 19 boundary values of int (15 of short where the position is a short; boxes: 16-bit, "
+                     "pos + size must not overflow) in each component position, the other components equal")
+    # ---- tree shapes beyond two children, sequences with one difference at every position
+    ops = []
+    vals = []
+    for n in range(1, 6):
+        for sh in tree_shapes(n):
+            vals.append(tree_enc(sh, [1] * n))
+            for k in range(n):
+                vals.append(tree_enc(sh, [1] * k + [0] + [1] * (n - k - 1)))
+    for i, a in enumerate(vals):
+        for j, b in enumerate(vals):
+            ops.append(f"relr tree {i % 3} {j % 3} {enc(a)} {enc(b)}")
+    yield Batch("tree-shapes", ops, exhaustive=True,
+                note=f"all pairs of {len(vals)} trees: every ordered shape up to 5 nodes (up to 4 children), all values equal "
+                     "or exactly one node different")
+    ops = []
+    for n in range(4, 10):
+        seqs = [[1] * n] + [[1] * k + [v] + [1] * (n - k - 1) for k in range(n) for v in (0, 2)]
+        seqs += [[1] * k for k in range(n - 2, n)] + [[1] * (n - 1) + [0], [1] * (n - 1) + [2]]
+        for i, a in enumerate(seqs):
+            for j, b in enumerate(seqs):
+                ops.append(f"relr rv {i % 5} {j % 5} {enc(a)} {enc(b)}")
+                ops.append(f"relr grid1 {i % 4} {j % 4} {enc([len(a)] + a)} {enc([len(b)] + b)}")
+        if n in (4, 6, 8, 9):
+            shapes = {4: [(2, 2), (1, 4), (4, 1)], 6: [(2, 3), (3, 2), (1, 6), (6, 1)], 8: [(2, 4), (4, 2)], 9: [(3, 3)]}[n]
+            full = [q for q in seqs if len(q) == n]
+            for a in full:
+                for b in full:
+                    for (w, h) in shapes:
+                        for (w2, h2) in shapes:
+                            if a is b or (w, h) == (w2, h2):
+                                ops.append(f"rel grid {enc([w, h] + a)} {enc([w2, h2] + b)}")
+    yield Batch("sequences", ops, exhaustive=True,
+                note="raw_vector / 1-D grid of 4..9 elements: equal, one element different at every position (smaller / larger), "
+                     "proper prefixes; 2-D grids of the same content in every shape of 4, 6, 8, 9 elements")
     # ---- triples
     r = rng.fork("tri")
     for ty in TYPES:
         ml = tri_maxlen(ty, thorough)
         d = domain(ty, ml)
+        if not d:
+            continue
         sel, ex = d, True
         yield Batch(f"triples-{ty}", [f"tri {ty} {ml} {enc(a)}" for a in sel], exhaustive=ex,
                     note=f"all triples over {len(d)} values")
@@ -332,7 +511,7 @@ def batches(rng, tier):
         c = near(r, ty, b) if r.chance(1, 2) else rand_value(r, ty, True)
         ops.append(f"tri1 {ty} {enc(a)} {enc(b)} {enc(c)}")
     # malformed encodings must be rejected by both sides
-    ops += ["rel grid 2,2,1 0,0", "rel tree 1,2,0,0 1,0", "rel opt 1,2 -", "rel bf3 2,0,0,0 0,0,0,0", "rel sp 0,2 0,0",
+    ops += ["rel grid 2,2,1 0,0", "rel tree 1,2,0,0 1,0", "rel opt 1,2 -", "rel bf3 2,0,0,0 0,0,0,0", "rel sp 0,3 0,0",
             "rel ref 3 0", "rel mat22 1,2,3 1,2,3", "rel nosuch 1 1"]
     yield Batch("rel-random", ops, note="random values with components in [-3,3], trees up to 7 nodes, grids up to 3x3, "
                 "raw_vectors up to 6 elements; half of the pairs differ in at most one place")
